@@ -108,7 +108,16 @@ pub fn units() -> Vec<Vec<String>> {
         u.push(vec![PERPETUAL.to_string(), format!("go depth {}", d), "isready".to_string()]);
     }
     u.push(vec!["ucinewgame".to_string(), "isready".to_string()]);
+    // searches limited by the clock earlier in the session: what they leave behind (a remembered
+    // clock, a budget) must not reach a later depth-limited search. Histories that contain one run
+    // under the node clock (1 node = 1 ms), which makes the timed searches deterministic too.
+    u.push(vec!["position startpos".to_string(), "go movetime 20".to_string(), "isready".to_string()]);
+    u.push(vec!["position startpos moves e2e4".to_string(), "go wtime 150 btime 150 winc 0 binc 0".to_string(), "isready".to_string()]);
     u
+}
+
+fn is_timed(u: &[String]) -> bool {
+    u.iter().any(|c| c.starts_with("go ") && !c.starts_with("go depth"))
 }
 
 fn is_newgame(u: &[String]) -> bool {
@@ -136,7 +145,8 @@ pub fn text(hist: &[usize], units: &[Vec<String>]) -> String {
 
 /// Output per unit (split at readyok), normalised; Err on crash / hang / malformed framing.
 fn run_once(exe: &str, hist: &[usize], units: &[Vec<String>], zseed: Option<u64>) -> Result<Vec<Vec<String>>, String> {
-    let o = Opts { exe, node_clock: None, zseed, horizon: Duration::from_secs(HORIZON_S) };
+    let timed = hist.iter().any(|u| is_timed(&units[*u]));
+    let o = Opts { exe, node_clock: if timed { Some(1) } else { None }, zseed, horizon: Duration::from_secs(HORIZON_S) };
     let r = blackbox::run(&o, &wire(hist, units)).unwrap_or_else(|e| {
         eprintln!("MACHINERY ERROR: {}", e);
         std::process::exit(2)
